@@ -2,11 +2,13 @@ SPECIFICATION Spec
 CONSTANTS
   Threads = {t1, t2, t3}
   Keys = {k1}
-  MaxOps = 4
+  MaxOps = 3
   KeygenOrder <- OrderAsCoded
   PinIsCounter = TRUE
-  WithCallback = FALSE
+  WithCallback = TRUE
 INVARIANT MutualExclusion
-INVARIANT Serializable
-PROPERTY Progress
+INVARIANT NoUseOfDeletedKey
+INVARIANT PinCountsHolders
+INVARIANT DelRespectsWindow
+INVARIANT FoundMeansResumed
 CHECK_DEADLOCK FALSE
